@@ -219,7 +219,7 @@ class VttContext:
 
     elif (
         self._paragraphs[-1].get_end() is not None and
-        self._paragraphs[-1].get_end().to_seconds() <= self._paragraphs[-1].get_begin().to_seconds()
+        self._paragraphs[-1].get_end().to_temporal_offset() <= self._paragraphs[-1].get_begin().to_temporal_offset()
       ):
       LOGGER.warning("Removing cue shorter than the WebVTT time resolution.")
       self._paragraphs.pop()
@@ -281,7 +281,7 @@ class VttContext:
       else:
         # set default end time code
         LOGGER.warning("Set a default end value to paragraph (begin + 10s).")
-        cue.set_end(cue.get_begin().to_seconds() + 10.0)
+        cue.set_end(cue.get_begin().to_temporal_offset() + 10)
 
   def style_block(self):
     """Generated CSS INLINE STYLE Block"""
